@@ -129,3 +129,15 @@ claim("C05",
       "proved; domain: sorted keys with level-specific labels.",
       "Rocq proof (induction over page_by levels and boundaries) + role-sequence differential check",
       "DESIGN.md section 6 C05")
+claim("C03",
+      "Theorems (Coq, unbounded): the implementation's accounting never overflows (budgeted rows per page within "
+      "max 1 (nrow - reserved) or a single-row page), every row the pipeline measures occupies >= 1 line, the budgeted line "
+      "count of a cell dominates the lines it needs, and budget + reserved <= nrow (C03_partial). The full statement is "
+      "refuted on the faithful model by two accounting gaps (known findings, witnessed by C03_refuted_heading_rows). "
+      "Against the implementation: rows by role per parsed page with data rows weighted by an independent line bound at "
+      "the cell's own font/size; every overflowing page is decomposed into header / heading / data components and any "
+      "excess the known gaps do not explain is a violation.",
+      "Line bounds come from Pillow through get_string_width (trusted oracle); footnote/source/heading rows are counted as "
+      "one line each (a lower bound). Known findings: C03-auto-header-unreserved, C03-heading-rows-underbudgeted.",
+      "Rocq proof (greedy-loop invariant, Q/Z arithmetic) + role-weighted differential check with excess decomposition",
+      "DESIGN.md section 6 C03")
